@@ -322,7 +322,7 @@ def main():
         # 4. evidence
         cov = {
             'obligations': pr['obligations'], 'discharged': pr['discharged'],
-            'checker_cmd': 'cd coq && make -k -j16 Properties_%s.vo && coqc -Q . CJ Properties_%s.v  (Coq 8.16.1 kernel, full .vo build)' % (pid, pid),
+            'checker_cmd': 'cd coq && make -k -j16 Properties_%s.vo  (Coq 8.16.1 kernel, full .vo build), then a generated file `From CJ Require Import Properties_%s. Print Assumptions <theorem>.` for every theorem; thorough tier: coqchk -silent -o -Q . CJ CJ.Properties_%s' % (pid, pid, pid),
             'trusted_base': [
                 'Coq 8.16.1 kernel (coqc; vm_compute used for finite sweeps/witnesses; no native_compute)',
                 'per-theorem Print Assumptions: ' + '; '.join('%s: %s' % (t['name'], ','.join(t['assumptions'])) for t in pr['theorems']),
